@@ -9,7 +9,7 @@ import tempfile
 
 import numpy as np
 import torch
-from tensordict import NonTensorData, TensorDict, lazy_stack
+from tensordict import NonTensorData, TensorDict, lazy_stack, tensorclass
 from tensordict.base import TensorDictBase
 
 DT = {  # name -> (torch dtype, element size, model id)
@@ -24,6 +24,14 @@ DT_BY_TORCH = {v[0]: k for k, v in DT.items()}
 BY_SIZE = {1: ["uint8", "int8", "bool"], 2: ["int16", "float16", "bfloat16"], 4: ["int32", "float32"],
            8: ["int64", "float64", "complex64"], 16: ["complex128"]}
 KEYS = ["a", "b", "c", "d", "e", "f", "g", "h", "k", "m", "p", "q"]
+
+
+@tensorclass
+class C11TC:
+    """a tensorclass (module level, so that pickling finds it): two tensors and a non-tensor field"""
+    x: torch.Tensor
+    y: torch.Tensor
+    s: str = "hi"
 
 
 def call(f):
@@ -105,6 +113,9 @@ def build_entry(ent, parent):
         return torch.nested.nested_tensor(comps, layout=torch.jagged)
     if k == "lazy":
         return lazy_stack([build(m) for m in ent[2]], ent[1])
+    if k == "tc":
+        bs = list(parent["bs"])
+        return C11TC(x=make_tensor(ent[1], bs + [2], "plain", ent[2]), y=make_tensor("int8", bs, "plain", ent[2] + 1), s="hi", batch_size=bs)
     raise ValueError(ent)
 
 
@@ -420,6 +431,7 @@ def carried(fmt, opt):
 def flat_leaves(td):
     """(key path, element size, numel) in the traversal order of _reduce_vals_and_metadata (insertion order, depth first;
     a jagged nested tensor contributes values, [lengths], offsets)"""
+    from tensordict.base import is_tensor_collection
     from tensordict.utils import is_non_tensor
     out = []
 
@@ -431,7 +443,7 @@ def flat_leaves(td):
         for k, v in x.items():
             if is_non_tensor(v):
                 continue
-            if isinstance(v, TensorDictBase):
+            if is_tensor_collection(v):     # TensorDict, lazy stack, tensorclass
                 go(v, pre + (k,))
             elif getattr(v, "is_nested", False):
                 out.append((pre + ("<NJT_VALUES>" + k,), v._values.element_size(), v._values.numel()))
